@@ -244,16 +244,31 @@ func vh_value_count() {
 	for i := range cols {
 		cols[i] = ColumnInfo{Name: "c", TypeInfo: NativeType{proto: c.version, typ: TypeInt}}
 	}
+	// one of the bind markers may be of a tuple type: it still takes ONE bound value (the tuple). The request
+	// metadata is filled in the way parsePreparedMetadata / readCol fill it (actualColCount counts the tuple's
+	// elements, as for result columns that Scan expands).
+	actual := ncols
+	tupleAt := -1
+	if ncols > 0 && vBool("a_tuple_bind_marker") {
+		tupleAt = vChoose("tuple_at", ncols)
+		cols[tupleAt].TypeInfo = TupleTypeInfo{NativeType: NativeType{proto: c.version, typ: TypeTuple},
+			Elems: []TypeInfo{NativeType{proto: c.version, typ: TypeInt}, NativeType{proto: c.version, typ: TypeInt}}}
+		actual++
+	}
 	fl := &inflightPrepare{done: make(chan struct{}), preparedStatment: &preparedStatment{id: []byte{1}}}
 	fl.preparedStatment.request.columns = cols
 	fl.preparedStatment.request.colCount = ncols
-	fl.preparedStatment.request.actualColCount = ncols
+	fl.preparedStatment.request.actualColCount = actual
 	close(fl.done)
 	c.session.stmtsLRU.add(key, fl)
 	nvals := vChoose("bound_values", 3)
 	var vals []interface{}
 	for i := 0; i < nvals; i++ {
-		vals = append(vals, int32(7))
+		if i == tupleAt {
+			vals = append(vals, []interface{}{int32(1), int32(2)})
+		} else {
+			vals = append(vals, int32(7))
+		}
 	}
 	vExecuteReply = []frame{nil}
 	q := &Query{stmt: "SELECT a", values: vals, session: c.session, routingInfo: &queryRoutingInfo{}, context: context.Background()}
